@@ -6,6 +6,7 @@
 From Coq Require Import List Arith Bool NArith.
 From Conductor Require Import Model.Loader Model.Planner Model.Exec Model.RunCase Proofs.Compose Proofs.ComposeRun
   Proofs.ExecInv Proofs.ExecTheorems Proofs.ExecMain Proofs.PlannerInv Proofs.PlannerThm Proofs.PlannerExact.
+From Conductor Require Import Gen.Generated Proofs.GenTie.
 Import ListNotations.
 
 (* Needed = tasks reachable from the root through tasks that run, and that run themselves;
@@ -105,6 +106,12 @@ Theorem C02_exactly_once_when_nothing_fails_end_to_end :
             (exists sl, In (EStart o sl) evs) /\ In (EFinish o 0%N) evs.
 Proof. exact cond_run_all_needed_run. Qed.
 Print Assumptions C02_exactly_once_when_nothing_fails_end_to_end.
+
+(* Tie to the source, re-checked on every run: the test under which the planner reports a first-visited
+   task as cached and does not traverse it is the one TRANSLATED from create_plan_for (gen_prune) *)
+Theorem C02_prune_rule_is_the_sources : forall again b, gen_prune again b = negb again && negb b.
+Proof. exact prune_tie. Qed.
+Print Assumptions C02_prune_rule_is_the_sources.
 
 Example C02_nonvacuous :
   match plan_for ex_info (fun _ => true) false 50 0 with
